@@ -1372,6 +1372,16 @@ def generic_element(it, iterable, node):
                 lab.pos_of = f.space
                 lab.scalar_pos = True
             return Seq([lab, row], "tuple")
+        if getattr(iterable, "iter_kind", None) == "itertuples" and getattr(iterable, "of_frame", None) is not None \
+                and iterable.of_frame.order is not None and not iterable.of_frame.open:
+            # one tuple per row: (label,) + the row's values in column order
+            f_ = iterable.of_frame
+            vals = [Val(f_.cols[c_], space=f_.space) for c_ in f_.order]
+            if getattr(iterable, "with_index", True):
+                lab = Val(call("rowlabel", const(f_.space.id if f_.space else 0)))
+                lab.is_label = True
+                vals = [lab] + vals
+            return Seq(vals, "tuple")
         if getattr(iterable, "iter_kind", None) == "enumerate":
             inner = generic_element(it, iterable.inner, node)
             i = Val(call("enum_index", to_term(iterable.inner)))
